@@ -6,6 +6,7 @@ theorem statement.
 -/
 import OdlModel.Common
 import OdlModel.Model.ProxProg
+import OdlModel.Model.ProxAux
 
 namespace OdlModel.ProxFloat
 open OdlModel OdlModel.Prox
@@ -138,5 +139,38 @@ def classTable : List (String × String) :=
    ("ScalingOperator", "scaling"), ("IdentityOperator", "scaling"),
    ("LinCombOperator", "lincombOp"), ("MultiplyOperator", "multiply"),
    ("ConstantOperator", "constant"), ("ZeroOperator", "zero"), ("PowerOperator", "power")]
+
+/-- IEEE-double instantiation of `AuxFns` (round 4: `_abs_pow_ufunc`, gradient operators). -/
+def floatAux (n mc : Nat) : AuxFns Float where
+  log := Float.log
+  isZero := fun a => a == 0.0
+  nonzero := fun a => a != 0.0
+  allFinite := fun v => (List.range (n * mc)).all (fun i => (v i).isFinite)
+  absPow0 := fun a => Float.pow (Float.abs a) 0.0
+  ge := fun a b => a >= b
+
+def parseAuxId (name : String) (f : String) : Option AuxId :=
+  let b (i : Nat) : Bool := (f.toList.getD i '0') = '1'
+  match name with
+  | "absPowSqrt" => some .absPowSqrt
+  | "absPowSq" => some .absPowSq
+  | "absPowGen" => some .absPowGen
+  | "gradL1" => some .gradL1
+  | "gradL2" => some .gradL2
+  | "gradKL" => some (.gradKL (b 0))
+  | "gradKLCC" => some (.gradKLCC (b 0))
+  | "gradKLCE" => some (.gradKLCE (b 0))
+  | "gradKLCECC" => some (.gradKLCECC (b 0))
+  | "gradHuber" => some (.gradHuber (b 0))
+  | "gradGroupL1" => some .gradGroupL1
+  | _ => none
+
+/-- Python class / method name ↦ auxiliary model program (round 4). -/
+def auxTable : List (String × String) :=
+  [("PointwiseNorm._abs_pow_ufunc", "absPowSqrt|absPowSq|absPowGen"),
+   ("L1Gradient", "gradL1"), ("L2Gradient", "gradL2"), ("KLGradient", "gradKL"),
+   ("KLCCGradient", "gradKLCC"), ("KLCrossEntropyGradient", "gradKLCE"),
+   ("KLCrossEntCCGradient", "gradKLCECC"), ("HuberGradient", "gradHuber"),
+   ("GroupL1Gradient", "gradGroupL1"), ("RosenbrockGradient", "rosen")]
 
 end OdlModel.ProxFloat
